@@ -41,11 +41,11 @@ CHECKS.update({
 
 CHECKS.update({
     "C10": dict(
-        technique="static analysis: cast / overflow-assert inventory over MIR of src/compiler + dominating range-guard recognition (dominators, value roots, enumerate/`?`/register-window idioms)",
+        technique="static analysis: cast / overflow-assert inventory over MIR of src/compiler + dominating range-guard recognition (dominators, value roots, enumerate/`?`/register-window idioms, callee range-check summaries, multi-guard path cut)",
         text="Decides the width-crossing clause: every narrowing integer cast and every checked u8/u16 arithmetic in the bytecode "
              "compiler is an obligation discharged only by a dominating range guard on the same value (or a recognised "
-             "allocator idiom). The unguarded sites of today's tree are genuine and listed as known findings, each with the "
-             "program that fails; a new unguarded site is a violation. The non-cumulative register clause is not decided.",
+             "allocator idiom). The 26 unguarded sites of the pinned tree were genuine (each with the program that failed) and were "
+             "repaired (fix: commit); a new unguarded site is a violation. The non-cumulative register clause is not decided.",
         ref="4/C10"),
 })
 
@@ -62,12 +62,12 @@ CHECKS.update({
 
 CHECKS.update({
     "C17": dict(
-        technique="static analysis: null-test dominance on the MIR CFG for extern \"C\" pointer parameters (helper summaries, closures, array idiom), C header parser compared with compiled signatures/layouts, RefCell-guard-held-across-hazard forward dataflow, unguarded-store rule, value-origin rule for reported array lengths",
-        text="Decides five structural clauses over all 64 exported functions: every use of a raw-pointer parameter as a valid pointer "
+        technique="static analysis: null-test dominance on the MIR CFG for extern \"C\" pointer parameters (helper summaries, closures, array idiom), C header parser compared with compiled signatures/layouts, RefCell-guard-held-across-hazard forward dataflow, unguarded-store rule, value-origin rule for reported array lengths, path rule for borrowed error strings",
+        text="Decides six structural clauses over all 64 exported functions: every use of a raw-pointer parameter as a valid pointer "
              "is dominated by a NULL test; tsrun.h agrees with the compiled exports (names, arity, types, struct fields, enum "
              "values); no RefCell guard of a GC cell is held across a call that may collect or re-enter (abort in extern \"C\"); "
              "possibly-object values stored across calls carry a guard; every length reported next to a leaked boxed slice is the "
-             "len() of that very vector. The fulfill_orders defect was repaired (fix: commit). "
+             "len() of that very vector; a C string returned by foreign code is read before last_error is written. The fulfill_orders defect was repaired (fix: commit). "
              "Aliasing and lifetime contracts of the API are not decided.",
         ref="4/C17"),
 })
@@ -112,7 +112,7 @@ CHECKS.update({
 
 CHECKS.update({
     "C02": dict(
-        technique="static analysis: type-directed trace coverage (every branch of the tracer is a shape test), who-may-write table for the register file, and guardflow - a forward may-analysis of guard protection (DNF protector sets) with backward liveness over MIR, interprocedural may-collect sets",
+        technique="static analysis: type-directed trace coverage (every branch of the tracer is a shape test), capture/restore re-rooting symmetry, who-may-write table for the register file, and guardflow - a forward may-analysis of guard protection (DNF protector sets) with backward liveness over MIR, interprocedural may-collect sets",
         text="Decides three rooting clauses for every function: Traceable::trace visits every Gc-bearing field path reachable from "
              "JsObject (71 obligations; dead types and one side-conditioned exemption aside) and never conditions a visit on plain data; only set_reg and the frame swaps write "
              "the register file; and no FRESH value (from a callee-returned Guarded or a local-guard allocation) is without a "
@@ -124,10 +124,11 @@ CHECKS.update({
 
 CHECKS.update({
     "C11": dict(
-        technique="static analysis: install/restore provenance classification of writes to Interpreter.env and run-scoped scratch fields + path-sensitive exit-path search on the MIR CFG; dominance rules for the active-run hand-off in step()/prepare()",
+        technique="static analysis: install/restore provenance classification of writes to Interpreter.env and run-scoped scratch fields + path-sensitive exit-path search on the MIR CFG; dominance rules for the active-run hand-off in step()/prepare(); scope-entering helper summaries; Some-sensitive slot-restore search",
         text="Decides run-state restoration on all exits: every installation of a fresh current environment (and every take of a "
              "run-scoped scratch field) reaches each function exit, every `?` included, only through a restore or a hand-off of "
-             "the saved value; step() restores on the error outcome; prepare() disposes of a still-active run. The nine "
+             "the saved value; step() restores on the error outcome; whoever empties the saved-environment slot restores it whenever "
+             "it held a value; prepare() disposes of a still-active run. The nine "
              "violations of the pinned tree (all reproduced with observer programs) were repaired (fix: commit). Frames of a "
              "run abandoned inside a call are not decided.",
         ref="4/C11"),
@@ -135,8 +136,8 @@ CHECKS.update({
 
 CHECKS.update({
     "C07": dict(
-        technique="static analysis: field-level taint from the running VM's fields into the aggregates built by save_state and from the saved state into the aggregates built by from_saved_state (closures included), against a reasoned exemption table; dominance of take_ready() by check_resolved_promises(); handler-registration coverage of PromiseStatus observers",
-        text="Decides the state-capture clause, the no-lost-wake-up clause and that every observer of a promise's status subscribes to the pending case (Promise.allSettled / Promise.any do not: listed): every field of the running VM and of every trampoline frame flows into the saved "
+        technique="static analysis: field-level taint from the running VM's fields into the aggregates built by save_state and from the saved state into the aggregates built by from_saved_state (closures included), against a reasoned exemption table; dominance of take_ready() by check_resolved_promises(); handler-registration coverage of PromiseStatus observers; capture/restore symmetry of re-rooting calls",
+        text="Decides the state-capture clause, the no-lost-wake-up clause and that every observer of a promise's status subscribes to the pending case (Promise.allSettled / Promise.any do not: listed), and that restore re-roots what capture copied guard-less: every field of the running VM and of every trampoline frame flows into the saved "
              "state and back (caches and re-derived guards exempt by a reasoned table), and the restore re-guards what it puts "
              "back. The four fields the pinned tree lost across a suspension (this, the block-scope stack, pending finally "
              "completions of the VM and of frames) were reproduced with awaiting programs and repaired (fix: commit). Schedules, "
@@ -146,9 +147,10 @@ CHECKS.update({
 
 CHECKS.update({
     "C06": dict(
-        technique="static analysis: call-graph reachability to the VM run loop (frozen roots + native table), RefCell-guard-held-across-re-entry forward dataflow, recursive SCCs with depth-guard recognition, size taint to allocation sinks with bound recognition, panic-site and divisor inventory, natural-loop progress classification in the instruction dispatch with a checked acyclicity side condition",
-        text="Decides six structural clauses of host control: which functions re-enter the VM run loop (each root a reproduced known "
-             "finding; the 60 re-entrant natives frozen), no RefCell guard across re-entry, depth guards on native recursion over "
+        technique="static analysis: call-graph reachability to the VM run loop (frozen roots + native table), sibling coverage of the two JsFunction dispatchers, RefCell-guard-held-across-re-entry forward dataflow, recursive SCCs with depth-guard recognition, size taint to allocation sinks with bound recognition, panic-site and divisor inventory, natural-loop progress classification in the instruction dispatch with a checked acyclicity side condition",
+        text="Decides seven structural clauses of host control: which functions re-enter the VM run loop (each root a reproduced known "
+             "finding; the 61 re-entrant natives frozen), every callee kind that runs script has a trampoline arm of its own (five "
+             "promise-settling kinds do not: handlers run nested, reproduced and listed), no RefCell guard across re-entry, depth guards on native recursion over "
              "script-built structures (12 unguarded cycles reproduced as stack overflows), bounded allocation sizes (3 reproduced "
              "aborts), reasoned panic sites and non-zero divisors, and progress of every loop in the dispatch (which found that "
              "cyclic prototype chains hang `instanceof`; repaired together with four RefCell panics, fix: commits). Work per "
